@@ -116,7 +116,7 @@ func Build(id string, n int, cand Candidate, race bool) (*World, error) {
 				spec, lexable := cand(i)
 				pkg := fmt.Sprintf("g%04d", i)
 				spec.Pkg = pkg
-				dir := filepath.Join(groot, pkg)
+				dir := filepath.Join(groot, specgen.DirOf(pkg))
 				files := spec.LoxFiles()
 				files["parser.go"], _ = spec.GoStageB(pkg, zz+"hrt")
 				if err := stagea.Materialise(dir, files, true); err != nil {
@@ -129,7 +129,7 @@ func Build(id string, n int, cand Candidate, race bool) (*World, error) {
 					return
 				}
 				if r.Exit != 0 {
-					os.RemoveAll(dir)
+					os.RemoveAll(filepath.Join(groot, pkg))
 					why := firstLine(string(r.Stderr))
 					results[b] = cres{i: i, why: why}
 					return
@@ -194,17 +194,17 @@ func (w *World) link(race bool) error {
 	var imp strings.Builder
 	imp.WriteString("package main\n\nimport (\n")
 	for _, e := range w.Entries {
-		rep, err := instr.InstrumentGenerated(filepath.Join(groot, e.Pkg), zz+"hrt")
+		rep, err := instr.InstrumentGenerated(filepath.Join(groot, specgen.DirOf(e.Pkg)), zz+"hrt")
 		if err != nil {
 			return stagea.Infra("P4 on %s: %v", e.Pkg, err)
 		}
 		w.Globals[e.Pkg] = rep.Globals
 		_, reg := e.Spec.GoStageB(e.Pkg, zz+"hrt")
-		if err := os.WriteFile(filepath.Join(groot, e.Pkg, "register.go"), []byte(reg), 0o644); err != nil {
+		if err := os.WriteFile(filepath.Join(groot, specgen.DirOf(e.Pkg), "register.go"), []byte(reg), 0o644); err != nil {
 			return stagea.Infra("%v", err)
 		}
 		w.YieldSites += rep.Yields
-		fmt.Fprintf(&imp, "\t_ %q\n", zz+"g/"+e.Pkg)
+		fmt.Fprintf(&imp, "\t_ %q\n", zz+"g/"+specgen.DirOf(e.Pkg))
 	}
 	imp.WriteString(")\n")
 	rs := filepath.Join(t.Plain, "internal", "zzverif", "runsim")
@@ -348,7 +348,7 @@ func runHarness(bin string, args []string, out string, env []string, timeout tim
 	}
 	data, rerr := os.ReadFile(out)
 	if rerr != nil {
-		return nil, stagea.Infra("harness produced no result (%v): %s", werr, tailS(se.String(), 3000))
+		return nil, &HarnessCrash{Err: fmt.Sprint(werr), Stderr: se.String()}
 	}
 	var r Result
 	if err := json.Unmarshal(data, &r); err != nil {
@@ -376,7 +376,7 @@ func BuildFixed(id string, specs []*specgen.Spec, lexable, race bool) (*World, e
 	groot := filepath.Join(t.Plain, "internal", "zzverif", "g")
 	for _, spec := range specs {
 		pkg := spec.Pkg
-		dir := filepath.Join(groot, pkg)
+		dir := filepath.Join(groot, specgen.DirOf(pkg))
 		files := spec.LoxFiles()
 		files["parser.go"], _ = spec.GoStageB(pkg, zz+"hrt")
 		if err := stagea.Materialise(dir, files, true); err != nil {
@@ -443,4 +443,14 @@ func (w *World) DeterminismProbe(bin, mode string, seed uint64, runs int, extra 
 		return "", stagea.Infra("harness is not deterministic: two executions of seed %d differ (%s vs %s;%s)", seed, a.StatsHash(), b.StatsHash(), diff)
 	}
 	return a.StatsHash(), nil
+}
+
+// HarnessCrash: the harness process ended without writing a result.
+type HarnessCrash struct {
+	Err    string
+	Stderr string
+}
+
+func (h *HarnessCrash) Error() string {
+	return fmt.Sprintf("harness produced no result (%s): %s", h.Err, tailS(h.Stderr, 3000))
 }
